@@ -74,13 +74,6 @@ class Spec:
                     else: splice(inner)
             splice(a)
             return ('fixed', tuple(flat))
-        if o is collections.Counter: return ('mapping', o, a[0], int)
-        if isinstance(o, type) and issubclass(o, cabc.ItemsView) and len(a) == 2: return ('items', o, tuple[a[0], a[1]])
-        if isinstance(o, type) and issubclass(o, cabc.Mapping) and len(a) == 2: return ('mapping', o, a[0], a[1])
-        if isinstance(o, type) and o.__module__ in ('builtins', 'collections', 'collections.abc', 'typing') and len(a) == 1 \
-           and (issubclass(o, (cabc.Iterable, cabc.Container))) \
-           and not issubclass(o, (cabc.Iterator, cabc.AsyncIterable, cabc.Awaitable)):
-            return ('items', o, a[0])
         if isinstance(o, type) and getattr(o, '__orig_bases__', None) and o.__module__ not in ('builtins', 'collections', 'collections.abc', 'typing'):
             # user generic: an instance of the class that also satisfies each subscripted pseudo-superclass with the
             # type parameters substituted (PEP 484 / 585 generics)
@@ -98,6 +91,13 @@ class Spec:
                 try: bases.append(b[tuple(sub.get(p, p) for p in b.__parameters__)] if getattr(b, '__parameters__', ()) else b)
                 except TypeError: bases.append(b)
             return ('generic', o, tuple(bases))
+        if o is collections.Counter: return ('mapping', o, a[0], int)
+        if isinstance(o, type) and issubclass(o, cabc.ItemsView) and len(a) == 2: return ('items', o, tuple[a[0], a[1]])
+        if isinstance(o, type) and issubclass(o, cabc.Mapping) and len(a) == 2: return ('mapping', o, a[0], a[1])
+        if isinstance(o, type) and o.__module__ in ('builtins', 'collections', 'collections.abc', 'typing') and len(a) == 1 \
+           and (issubclass(o, (cabc.Iterable, cabc.Container))) \
+           and not issubclass(o, (cabc.Iterator, cabc.AsyncIterable, cabc.Awaitable)):
+            return ('items', o, a[0])
         if isinstance(o, type): return ('cls', o)       # shallow: Iterator, Generator, Callable, Awaitable, ...
         raise NotImplementedError(f'spec: unsupported hint {h!r}')
     def k(self, h):
